@@ -45,7 +45,7 @@ C["C16"] = dict(engine="domainmc", cat="fault_enumeration", technique="exhaustiv
   text="Every strict prefix of the serialisation of every reached state of every kind is fed to a fresh receiver and must be rejected; the complete kind / one-parameter / version / magic mismatch matrix must be rejected; store segments with a truncated, empty or missing component file must contribute nothing. Receivers in the mismatch matrix are also used / tuned (SetEfSearch) / have refused or accepted a read before; a receiver that differs in efSearch alone.",
   note=NOTE)
 C["C18"] = dict(engine="domainmc", cat="exploration", technique=DOM,
-  text="All vectors over a 15-value magnitude-spanning alphabet in dimensions 1-2 (7 values in d=3), all ordered pairs, all triples for the triangle inequality, structured d=64/512 families: every stated law is evaluated on every member. Plus every batch length 0..600/4200 x 4 dimensions x 3 kinds, bit-equal to the scalar call. Scalings 2^-60 .. 2^60; batches whose queries are views into one backing array.",
+  text="All vectors over a 16-value magnitude-spanning alphabet (0, IEEE negative zero, 1e-6..1e6 with signs) in dimensions 1-2 (8 values in d=3), all ordered pairs, all triples for the triangle inequality, structured d=64/512 families: every stated law is evaluated on every member. Plus every batch length 0..600/4200 x 4 dimensions x 3 kinds, bit-equal to the scalar call. Scalings 2^-60 .. 2^60; batches whose queries are views into one backing array.",
   note="Exhaustive over the stated lattice only; tolerances 8*d*2^-23 relative to operand magnitudes; runs on the instrumented copy of /repo.")
 C["C19"] = dict(engine="domainmc", cat="exploration", technique=DOM,
   text="All result lists up to length 3/4 over ids x scores incl. +-Inf/NaN with every permutation, every k and cutoff, all score lists up to length 5 for autocut, all pairs of 125 score maps for each fusion, all NaN-free lists for merge. Plus fusion OBJECT histories: every sequence of <= 5/6 steps over customise-the-default-configuration / pristine? / build fusions / combine (12 input pairs of sizes 1..90), each Combine judged against the rule of the configuration the object was built with.",
